@@ -713,12 +713,15 @@ REGISTRY = {
                      "optional-metadata tails); scenario = transactions whose statements announce tables A, B, C (C re-uses A's id), A under a "
                      "new id, and A's id/name with other column types, inside and across transactions, optionally with a mapper table of another "
                      "column count"),
-    "C16": dict(mode="c16", trace_module="Trace_Codec", trace_cfg="Trace_Codec.cfg", props=["C16"], block_ev=["case"],
+    "C16": dict(parts=[dict(mode="c16", trace_module="Trace_Codec", trace_cfg="Trace_Codec.cfg", props=["C16"], block_ev=["case"]),
+                       dict(mode="c16r", trace_module="Trace_Stream", trace_cfg="Trace_Stream.cfg", props=["C16"])],
                 mc=[MC_CELLSPEC], assumptions=["event bytes come from the harness's independent writer (DESIGN.md Appendix A.2-A.4)"],
                 rule="case = one event decoded by the real accessors: FORMAT_DESCRIPTION (server versions 0..50 bytes, 27..255 header-size entries, "
                      "checksum algorithm off/CRC32/undefined), ROTATE, QUERY with every subset (in MySQL's order) of status variables 0..20 with "
                      "random payloads, database names 0..255 bytes, SQL 0..64KB, XID, INTVAR, RAND; header fields at their boundaries; every "
-                     "event with and without the trailing CRC32"),
+                     "event with and without the trailing CRC32; plus two streams on one Streamer whose masters announce different "
+                     "formats (checksum on / off, other wire options), the second served from a history of its own: each call decodes with "
+                     "the format its own stream announces"),
     "C17": dict(parts=[dict(mode="c17a", trace_module="Trace_Codec", trace_cfg="Trace_Codec.cfg", props=["C17"], block_ev=["case"]),
                        dict(mode="c17s", trace_module="Trace_Stream", trace_cfg="Trace_Stream.cfg", props=["C17"]),
                        dict(mode="c17g", trace_module="Trace_Stream", trace_cfg="Trace_Stream.cfg", props=["C17"], drift_props=["D04"])],
